@@ -1,7 +1,7 @@
 /-
 C03 — IR -> proto -> IR preserves the model; serialization has no side effects (model `IrVerif.Scope`).
 -/
-import IrVerif.Lemmas.ScopeRTMain
+import IrVerif.Lemmas.ScopeIdem
 import IrVerif.Props.C17
 namespace IrVerif.Scope
 
@@ -253,18 +253,8 @@ theorem C03_pure (w w1 : World) (p : GraphP) (h : serialize w = .ok (w1, p)) :
 theorem C03_roundtrip (w : World) (h : Serializable w) :
     ∃ (w1 : World) (p : GraphP) (D : World) (σ : Nat → Nat),
       serialize w = .ok (w1, p) ∧ deserialize p = .ok D ∧ Iso w D σ ∧ Consistent D := by
-  obtain ⟨hnd, hS⟩ := h
-  obtain ⟨p, ws, hp⟩ := serGraph_ok w.st.vals w.st.tdata w.root [] hS
-  obtain ⟨s', g', B, hd, hrs, _, hk, ht⟩ := rt_graph w.st.vals w.st.tdata w.root {} [] [] p ws hp
-    (by simpa using hS) hnd (fun _ _ => by simp) (fun _ hv => by simp at hv) (fun _ ha => by simp at ha)
-    ⟨by simp, fun _ he => by simp at he, by simp, fun _ he => by simp at he⟩
-  simp only [List.map_nil, List.nil_append] at hd hrs ht
-  have hdes : deserialize p = .ok ⟨s', g'⟩ := by simp only [deserialize, hd]
-  refine ⟨⟨w.st.writes ws, w.root⟩, p, ⟨s', g'⟩, sig B, by simp only [serialize, hp], hdes, ?_,
-    C17_consistent p _ hdes⟩
-  exact ⟨TreeRelG.iso _ B _ _ ht,
-    fun a ha b hb he => hrs.sig_inj ((hk a).mpr ha) ((hk b).mpr hb) he,
-    fun v hv => hrs.sig_name ((hk v).mpr hv)⟩
+  obtain ⟨p, ws, D, σ, hp, hdes, hiso⟩ := roundtrip_core w h
+  exact ⟨⟨w.st.writes ws, w.root⟩, p, D, σ, by simp only [serialize, hp], hdes, hiso, C17_consistent p _ hdes⟩
 
 /-! ### non-vacuity -/
 
@@ -275,7 +265,8 @@ theorem C03_roundtrip (w : World) (h : Serializable w) :
 def exampleWorld : World :=
   let cells : List ValueS := [
     { name := some "x", info := { ty := some "f32", sh := some "[2]" }, isIn := true, graph := some 1 },
-    { name := some "w", const := some 0, isInit := true, graph := some 1 },
+    { name := some "w", info := { ty := some "f32", sh := some "[2]" }, const := some 0, isInit := true,
+      graph := some 1 },
     { name := some "y", info := { ty := some "f32" }, producer := some 1, index := some 0, isOut := true,
       graph := some 1 },
     { name := some "", producer := some 1, index := some 1 },
